@@ -19,18 +19,33 @@
 (***************************************************************************)
 EXTENDS Naturals, FiniteSets, Sequences
 
-CONSTANTS Ids,          \* remote identities
+\* The @type comments are for Apalache (PeerSetInd.tla: inductive invariant, unbounded in the number of steps); TLC ignores them.
+CONSTANTS
+          \* @type: Set(Str);
+          Ids,          \* remote identities
+          \* @type: Str;
           Self,         \* the node's own identity (may present itself as a remote)
+          \* @type: Set(Str);
           Trusted,      \* SUBSET Ids: Config.TrustedNodes
+          \* @type: Int;
           MaxPeers,     \* Config.MaxPeers
+          \* @type: Int;
           MaxInbound,   \* Server.maxInboundConns() = MaxPeers - MaxPeers/DialRatio
+          \* @type: Int;
           MaxConns,     \* bound on connection attempts per behaviour (model only)
+          \* @type: Bool;
           Recheck       \* TRUE: as the code; FALSE: protoHandshakeChecks does not repeat the checks (must fail)
 
-VARIABLES peers,        \* function: identity -> [inbound, trusted, static]   (the run loop's `peers` map)
+VARIABLES
+          \* @type: Str -> {inbound: Bool, trusted: Bool, static: Bool};
+          peers,        \* function: identity -> [inbound, trusted, static]   (the run loop's `peers` map)
+          \* @type: Int;
           inboundCount, \* the run loop's counter
+          \* @type: Int -> {id: Str, inbound: Bool, trusted: Bool, static: Bool};
           pending,      \* function: connection number -> [id, inbound, trusted, static]  (between the two checkpoints)
+          \* @type: Int;
           nconn,        \* connections attempted so far
+          \* @type: {op: Str, conn: Int, id: Str, res: Str};
           last          \* outcome of the last step: [op, conn, id, res]
 
 vars == <<peers, inboundCount, pending, nconn, last>>
@@ -38,13 +53,19 @@ vars == <<peers, inboundCount, pending, nconn, last>>
 AllIds == Ids \cup {Self}
 Kinds == {"inbound", "dyn", "static"}
 
-Init == /\ peers = <<>> /\ inboundCount = 0 /\ pending = <<>> /\ nconn = 0
+\* the empty maps, written as functions over the empty set (equal to <<>> in TLC; typable for Apalache)
+NoPeers == [x \in {} |-> [inbound |-> FALSE, trusted |-> FALSE, static |-> FALSE]]
+NoPending == [x \in {} |-> [id |-> "", inbound |-> FALSE, trusted |-> FALSE, static |-> FALSE]]
+Init == /\ peers = NoPeers /\ inboundCount = 0 /\ pending = NoPending /\ nconn = 0
         /\ last = [op |-> "init", conn |-> 0, id |-> "", res |-> ""]
 
+\* @type: (a -> b, a) => (a -> b);
 Drop1(f, k) == [x \in (DOMAIN f) \ {k} |-> f[x]]
+\* @type: (a -> b, a, b) => (a -> b);
 Put(f, k, v) == [x \in (DOMAIN f) \cup {k} |-> IF x = k THEN v ELSE f[x]]
 
 \* encHandshakeChecks, in the order of its switch
+\* @type: ({id: Str, inbound: Bool, trusted: Bool, static: Bool}) => Str;
 Checks(c) ==
   IF ~(c.trusted \/ c.static) /\ Cardinality(DOMAIN peers) >= MaxPeers THEN "too many peers"
   ELSE IF ~c.trusted /\ c.inbound /\ inboundCount >= MaxInbound THEN "too many peers"
@@ -88,6 +109,7 @@ Next == \/ \E id \in AllIds, k \in Kinds : Connect(id, k)
 Spec == Init /\ [][Next]_vars
 
 ----------------------------------------------------------------------------
+\* @type: ({inbound: Bool, trusted: Bool, static: Bool}) => Bool;
 Privileged(p) == p.trusted \/ p.static
 PeerIds == DOMAIN peers
 
